@@ -366,6 +366,25 @@ def restart_and_compare(h, ref=None, old=None):
         d.mclient.dead = True
     d.mclient = d.srv.client('master-c11')
     m = d.master_mod.Master(d.zkbackend.ZkBackend(d.mclient), 'cell')
+    vanish = getattr(h, 'record_vanishes_at', 0)
+    if vanish:
+        # another writer (the deposed master completing a delete, an operator) removes one placement record between the
+        # successor's listing of a server's records and its read of that record: that record is not part of the stored
+        # state any more, everything else is
+        seen = [0]
+        z = d.z
+
+        def hook(client, op, path):
+            if client is d.mclient and op == 'get' and path.startswith(z.PLACEMENT + '/') and path.count('/') == 3 and seen[0] >= 0:
+                seen[0] += 1
+                if seen[0] == vanish:
+                    seen[0] = -1
+                    s_, a_ = path.split('/')[2:4]
+                    d.zkutils.ensure_deleted(d.admin, path)
+                    if s_ in ref and a_ in ref[s_][2]:
+                        ref[s_][2].pop(a_)
+                    out['flags']['record_vanished_between_listing_and_read'] = True
+        d.srv.on_op = hook
     try:
         m.load_model()
     except BaseException as err:   # noqa
